@@ -1006,6 +1006,48 @@ def check_concat_differing(rng, angle_sets, active):
     return None
 
 
+def check_sigma_theta_list(rng, angles, pick):
+    """sigma / sigma_dB selected with a *list* of incidence angles (polarisations left free): each value is 4 pi cos(theta) times the
+    stored intensity at that angle, and dB is 10 log10 of it"""
+    from smrt.core import sensor as cs
+    s = cs.active(13e9, list(angles))
+    res = stub_result(s, rng)
+    try:
+        got = res.sigma(theta=list(pick))
+        got_db = res.sigma_dB(theta=list(pick))
+    except Exception as e:  # noqa
+        return ("sigma:theta-list", f"sigma(theta={list(pick)}) on an active result with incidence angles {list(angles)} raises {type(e).__name__}: "
+                f"{str(e)[:80]}", "4 pi cos(theta) x intensity at every selected angle")
+    for t in pick:
+        want = res.data.sel(theta_inc=t, drop=True)
+        if "theta" in want.dims:
+            want = want.sel(theta=t, drop=True)
+        want = want * (4 * math.pi * math.cos(math.radians(float(t))))
+        g = got.sel(theta_inc=t, drop=True) if "theta_inc" in getattr(got, "dims", ()) else got
+        if not same_map(g.squeeze(), want.squeeze(), 1e-12):
+            return ("sigma:theta-list", f"sigma(theta={list(pick)}) on an active result with incidence angles {list(angles)}: the values at {t} deg are "
+                    f"not 4 pi cos(theta) x the stored intensity", out_res(want)[:160])
+        gd = got_db.sel(theta_inc=t, drop=True) if "theta_inc" in getattr(got_db, "dims", ()) else got_db
+        wd = 10 * np.log10(np.maximum(want, 1e-20))
+        if not same_map(gd.squeeze(), wd.squeeze(), 1e-9):
+            return ("sigma:theta-list", f"sigma_dB(theta={list(pick)}): the values at {t} deg are not 10 log10 of the linear ones", out_res(wd)[:160])
+    return None
+
+
+def check_subsensor_wavelength(freqs):
+    """every sensor obeys frequency x wavelength = c - also the single-frequency sensors a multi-frequency one is split into for the
+    individual simulations (Sensor.iterate)"""
+    from smrt.core import sensor as cs
+    from smrt.core.globalconstants import C_SPEED
+    s = cs.passive(list(freqs), 40.)
+    for sub in s.iterate("frequency"):
+        f, lam = np.asarray(sub.frequency, dtype=float), np.asarray(sub.wavelength, dtype=float)
+        if f.shape != lam.shape or not np.allclose(f * lam, C_SPEED, rtol=1e-12, atol=0):
+            return ("sensor:subsensor-wavelength", f"passive({list(freqs)}, 40).iterate('frequency'): the sub-sensor at {float(f):g} Hz has wavelength "
+                    f"{lam.tolist()} (wavenumber {np.asarray(sub.wavenumber).tolist()})", f"{C_SPEED / float(f)}")
+    return None
+
+
 def check_sensorlist_order(channels):
     """a multi-channel altimeter built with an explicit channel list in any order: the labels of `configurations()` and the sensors of
     `iterate()` pair up (what Model.run relies on to label the results)"""
@@ -1142,6 +1184,12 @@ def _oracle(ctx, hints, effort):
     for sets, act in (([[35.], [45.]], True), ([[20., 30.], [30., 40.], [40., 50.]], True), ([[25., 40.], [40., 55.]], False)):
         evals += 1
         record(lambda: check_concat_differing(rng, sets, act), {"kind": "concat_differing", "sets": sets, "active": act})
+    for angles, pick in (([20., 30., 40.], [20., 30., 40.]), ([20., 30., 40.], [20., 40.]), ([15., 25., 35., 45.], [45., 15.])):
+        evals += 1
+        record(lambda: check_sigma_theta_list(rng, angles, pick), {"kind": "sigma_theta_list", "angles": angles, "pick": pick})
+    for fr in ([10.65e9, 36.5e9], [5e9, 19e9, 37e9]):
+        evals += 1
+        record(lambda: check_subsensor_wavelength(fr), {"kind": "subsensor_wavelength", "freqs": fr})
     for chans in (["S", "Ku"], ["Ku", "S"]):
         evals += 1
         record(lambda: check_sensorlist_order(chans), {"kind": "sensorlist_order", "channels": chans})
@@ -1233,6 +1281,10 @@ def _replay(inp, rp=None):
         r = check_channel_sequence(getattr(s, "name", "sensor"), s, rng)
     elif k == "concat_differing":
         r = check_concat_differing(rng, inp["sets"], inp["active"])
+    elif k == "sigma_theta_list":
+        r = check_sigma_theta_list(rng, inp["angles"], inp["pick"])
+    elif k == "subsensor_wavelength":
+        r = check_subsensor_wavelength(inp["freqs"])
     elif k == "sensorlist_order":
         r = check_sensorlist_order(inp["channels"])
     elif k == "custom":
